@@ -78,7 +78,7 @@ func VerifyEventSignatures(ctx context.Context, e PDU, verifier JSONVerifier, us
 
 	// Special checks for membership events.
 	if e.Type() == spec.MRoomMember {
-		membership, err := e.Membership()
+		membership, err := membershipForSignatures(e)
 		if err != nil {
 			return fmt.Errorf("failed to get membership of membership event: %w", err)
 		}
@@ -158,9 +158,35 @@ func VerifyEventSignatures(ctx context.Context, e PDU, verifier JSONVerifier, us
 	return nil
 }
 
+// membershipForSignatures returns the membership of a m.room.member event as the signed (redacted) form of
+// the event carries it: the member named exactly "membership". PDU.Membership() also accepts other
+// spellings of the name, so that {"membership":"invite","Membership":"leave"} would be a leave here (no
+// signature of the invited user's server needed) and an invite for everybody reading the exact name.
+func membershipForSignatures(e PDU) (string, error) {
+	var content struct {
+		Membership string `json:"membership"`
+	}
+	exact, err := exactFieldsOnly(e.Content(), &content)
+	if err != nil {
+		return "", err
+	}
+	if err = json.Unmarshal(exact, &content); err != nil {
+		return "", err
+	}
+	if e.StateKey() == nil {
+		return "", fmt.Errorf("gomatrixserverlib: not a m.room.member event, missing state key")
+	}
+	return content.Membership, nil
+}
+
 func getMXIDMapping(e PDU) (*MXIDMapping, error) {
 	var content MemberContent
-	err := json.Unmarshal(e.Content(), &content)
+	// exact member names only, as NewMemberContentFromEvent (the reading of the auth rules)
+	exact, err := exactFieldsOnly(e.Content(), &content)
+	if err != nil {
+		return nil, err
+	}
+	err = json.Unmarshal(exact, &content)
 	if err != nil {
 		return nil, err
 	}
@@ -217,14 +243,25 @@ func validateMXIDMappingSignatures(ctx context.Context, e PDU, mapping MXIDMappi
 }
 
 func extractAuthorisedViaServerName(content []byte) (spec.ServerName, error) {
-	if v := gjson.GetBytes(content, "join_authorised_via_users_server"); v.Exists() {
-		_, serverName, err := SplitID('@', v.String())
+	// The authorising user is read the way the auth rules read it (MemberContent.AuthorisedVia in
+	// NewMemberContentFromEvent): the member with exactly this name, the last one if the name is repeated,
+	// decoded as a string. Any other reading lets the auth rules rely on a user whose server need not sign.
+	var members map[string]json.RawMessage
+	if err := json.Unmarshal(content, &members); err != nil {
+		return "", fmt.Errorf("failed to read member content: %w", err)
+	}
+	if v, ok := members["join_authorised_via_users_server"]; ok {
+		var userID string
+		if err := json.Unmarshal(v, &userID); err != nil {
+			return "", fmt.Errorf("failed to read authorised user: %w", err)
+		}
+		_, serverName, err := SplitID('@', userID)
 		if err != nil {
 			return "", fmt.Errorf("failed to split authorised server: %w", err)
 		}
 		if serverName == "" {
 			// An empty server name would be taken for "no authorising server" by the caller.
-			return "", fmt.Errorf("authorised user %q has no server name", v.String())
+			return "", fmt.Errorf("authorised user %q has no server name", userID)
 		}
 		return serverName, nil
 	}
